@@ -506,8 +506,9 @@ func c16RoundTrip(c *Ctx) {
 		}
 		r.Floor("O-4", "unmarshal calls in Load", n, 1)
 		for _, call := range callsTo(loadFn, "os.ReadFile") {
-			ok, why := failurePropagates(call)
-			r.Check(ok, "O-4", "history.(*SearchHistory).Load#read-error-returned", c.P.Pos(call.Pos()), "a failed read is returned", why)
+			// a missing file is not a failure: the history starts empty
+			ok, why := failurePropagatesExcept(call, notExistEdges(call))
+			r.Check(ok, "O-4", "history.(*SearchHistory).Load#read-error-returned", c.P.Pos(call.Pos()), "a failed read (other than: no file yet) is returned", why)
 		}
 	}
 }
